@@ -97,6 +97,8 @@ def cases(rng, tier, feats, drv_ok):
         each('root+2^248', F.ROOTS, bump=lambda x: (x + (1 << 248)) % P)
         # vectors of unequal length: `points` / `values` one short (never reachable from stark_verify, which computes the points itself)
         mut('points-truncated', F.POINTS, lambda s_: F.fmt_list(F.parse_list(s_)[:-1]))
+        mut('values-truncated', F.VALUES, lambda s_: F.fmt_list(F.parse_list(s_)[:-1]))      # (coverage: the length check of fri_verify was never reached)
+        mut('values-extended', F.VALUES, lambda s_: F.fmt_list(F.parse_list(s_) + [1]))
         if si in built_short:
             # dropped-query forgery: the last query's value is junk, the points vector is one short and the witness opens only the other queries
             ts = built_short[si]; t = list(toks)
